@@ -11,7 +11,7 @@ import shutil
 from harness import blocks, codec, common, container
 from harness.container import T0, Clock, scripted_clock
 
-CONTROL = ["allow_write", "enter", "exit", "exit_exn"]
+CONTROL = ["allow_write", "enter", "exit", "exit_exn", "copy_switch"]
 MUTATORS = ["add_block", "add_block_dup", "remove_block", "remove_absent", "replace_block", "replace_equal", "set_equal",
             "set_data3D", "set_force_and_torque", "set_force_platforms_data", "set_events", "set_emg"]
 READERS = ["blocks", "get_block_index", "get_block_type", "getitem", "data3D", "events", "emg", "has_data3D",
@@ -78,6 +78,18 @@ def perform(sess, name):
         mcall, thunk = [3], lambda: t.__exit__(None, None, None)
     elif name == "exit_exn":
         mcall, thunk = [4], lambda: t.__exit__(ValueError, ValueError("boom"), None)
+    elif name == "copy_switch":
+        # t = t.copy(path): the session goes on with the object copy() returned (and with the copied file)
+        sess.ncopy += 1
+        dst = os.path.join(sess.work, "s%d_copy%d.tdf" % (sess.idx, sess.ncopy))
+        mcall = [7]
+
+        def thunk():
+            new = t.copy(dst)
+            h = getattr(t, "handler", None)          # tidy up the object left behind (not part of the observation)
+            if h is not None and not h.closed:
+                h.close()
+            sess.t, sess.path = new, dst
     elif name == "add_block":
         k = next((k for k in ("FT", "OS", "PC", "CA", "D2", "PD", "EM", "D3", "EV") if blocks.TY[k] not in present), None)
         if k is None:
@@ -145,6 +157,8 @@ def perform(sess, name):
 
 
 def enabled(inside, name):
+    if name == "copy_switch":
+        return True
     if name == "enter":
         return not inside
     if name in ("exit", "exit_exn"):
@@ -178,7 +192,7 @@ def well_bracketed(seq, inside0=False):
             return False
         if name == "enter":
             inside = True
-        elif name in ("exit", "exit_exn"):
+        elif name in ("exit", "exit_exn", "copy_switch"):
             inside = False
     return True
 
@@ -228,8 +242,8 @@ def judge(chk, seq, recs, mres):
             allowed = True
         elif name == "enter":
             inside, write_ctx = True, allowed
-        elif name in ("exit", "exit_exn"):
-            inside, write_ctx, allowed = False, False, False
+        elif name in ("exit", "exit_exn", "copy_switch"):
+            inside, write_ctx, allowed = False, False, False          # the object copy() returns starts from scratch
         elif name in READERS and name not in PLAIN and not inside:
             if not (name == "eq" and hcode == 0):
                 allowed = False          # the implicit context consumed the permission when it exited
@@ -252,7 +266,8 @@ def run(chk):
     SPECS["base_sha"] = hashlib.sha1(open(base, "rb").read()).hexdigest()
     prefixes = [[], ["allow_write"], ["enter"], ["allow_write", "enter"], ["allow_write", "enter", "exit", "enter"],
                 ["allow_write", "enter", "exit_exn"], ["allow_write", "enter", "exit_exn", "enter"], ["enter", "allow_write"],
-                ["allow_write", "has_events"], ["allow_write", "enter", "add_block", "exit"]]
+                ["allow_write", "has_events"], ["allow_write", "enter", "add_block", "exit"],
+                ["allow_write", "copy_switch"], ["allow_write", "enter", "copy_switch"], ["allow_write", "enter", "add_block", "copy_switch", "enter"]]
     L = 2 if chk.tier == "quick" else 3
     seqs = []
     for p in prefixes:
@@ -277,17 +292,17 @@ def run(chk):
             s.append(name)
             if name == "enter":
                 inside = True
-            elif name in ("exit", "exit_exn"):
+            elif name in ("exit", "exit_exn", "copy_switch"):
                 inside = False
         seqs.append(s)
     chk.extra["exhaustive_tail_length"] = L
     chk.extra["prefix_modes"] = len(prefixes)
     chk.rule = ("call sequences on a Tdf object over a file holding one block: every tail of length <= L (stated in "
-                "exhaustive_tail_length) over the 30-call alphabet {allow_write, enter, exit, exit-by-exception} + 12 mutator "
-                "requests (add valid/duplicate, remove present/absent, replace with another / with equal content, the five setters, a setter with equal content) + 14 readers, after each of 10 "
+                "exhaustive_tail_length) over the 31-call alphabet {allow_write, enter, exit, exit-by-exception, continue with the object copy() returns} + 12 mutator "
+                "requests (add valid/duplicate, remove present/absent, replace with another / with equal content, the five setters, a setter with equal content) + 14 readers, after each of 13 "
                 "prefix modes (no context; allow_write only; read-only context; write context; re-entered after a write context; "
                 "after exit by exception; re-entered after that; allow_write inside a read-only context; allow_write consumed by "
-                "a reader; after a successful write session), plus random sequences of 3-12 calls; observed after each call: "
+                "a reader; after a successful write session; on a copy taken with the permission pending, taken inside a write context, and entered after that), plus random sequences of 3-12 calls; observed after each call: "
                 "raised? (mutators), bytes changed?, handler state, _inside_context, the == operand's file; non-trivial = contains "
                 "a mutator")
     results = []
